@@ -57,11 +57,14 @@ def build_recipes(slot_nodes):
         for t in ts[1:]:
             r = ["bin", "+", r, t]
         return r
+    # the constant term is written (k + 0.5) - 0.5 and the right-hand side (s1 * 2) / 2: a parameter directly next to
+    # a literal constant is a sub-expression without variables (nothing may fold it at compile time)
+    kk = ["bin", "-", ["bin", "+", n["k"], _c(0.5)], _c(0.5)]
     obj = S(["bin", "*", n["a"], _sq(X)], ["bin", "*", _c(2), _sq(Y)], ["bin", "*", X, Y],
-            ["bin", "*", n["d1"], X], ["bin", "*", _c(1.5), Y], n["k"],
+            ["bin", "*", n["d1"], X], ["bin", "*", _c(1.5), Y], kk,
             _sq(V0), _sq(V1), ["un", "neg", ["bin", "*", n["e0"], V0]], ["bin", "/", V1, n["t"]])
     cons = [
-        (S(["bin", "*", n["r1"], X], Y), "<=", n["s1"]),
+        (S(["bin", "*", n["r1"], X], Y), "<=", ["bin", "/", ["bin", "*", n["s1"], _c(2.0)], _c(2.0)]),
         (["bin", "-", X, Y], ">=", _c(-3)),
         (S(V0, V1), "<=", _c(4)),
     ]
